@@ -387,6 +387,19 @@ const fn u256_sub(a: &U256, b: &U256) -> (res: (U256, bool))
     (r, borrow)
 }
 
+fn u256_bits_and(a: &U256, b: &U256) -> (result: U256)
+    ensures forall|k: int| 0 <= k < 4 ==> result@[k] == a@[k] & b@[k]
+{
+    let mut result: [u64; 4] = [0; 4];
+    for i in 0..a.len()
+        invariant forall|k: int| 0 <= k < i ==> result@[k] == a@[k] & b@[k]
+    {
+        result[i] = a[i] & b[i];
+    }
+    result
+}
+
+
 fn u256_mul(a: &U256, b: &U256) -> (ret: U512)
     ensures val8(ret@) == val4(a@) * val4(b@)
 {
